@@ -349,6 +349,10 @@ def _run(terms, tier, rng, full):
                    "expression, simplify and map_wires were all validated",
            "samples": samples, "exhaustive": False, "ring_level_M": M, "matrix_compared": n_matrix, "exact_by_tlc": n_exact,
            "bridged_float": n_bridge, "negative_controls_rejected": nneg + 1, "tlc_runs": tstats["runs"], **stats}
+    vk = {}
+    for v in viol:                      # complete list of violation keys with multiplicities (the runner prints only the first 20)
+        vk[v.key] = vk.get(v.key, 0) + 1
+    cov["violation_keys"] = dict(sorted(vk.items()))
     return CheckResult(coverage=cov, violations=viol, assumptions=[
         "leaf gates denote the reference table Gates.tla (checked against the implementation by C02); angles on the lattice pi/4, "
         "exp coefficients i*a*pi/8, scalars in {+-1, +-1/2, +-i, 2}",
